@@ -25,7 +25,7 @@ def scenarios(rnd, quick):
         if s["pool"] == "factory":
             s["quota"] = rnd.choice([1, 2, 3])
         # work queue bounds: the documented float form, None, or an int that is not smaller than the number of workers
-        wq = rnd.choice(["default", None, 1.0, 2.0, nw, nw + 1])
+        wq = rnd.choice(["default", None, 1.0, 2.0, nw, nw + 1, 1])
         if wq != "default":
             s["wq"] = wq
         rq = rnd.choice(["default", None, 1, 2])
@@ -45,7 +45,7 @@ def run(ctx):
                 "FactoryFunctorPool with quotas 1-3 so that workers retire inside and exactly at the end of calls; values carry the call "
                 "number, so a result leaking from an earlier call is rejected by the results clause; results and termination clauses "
                 "enforced; schedules by preemption-bounded DFS, random and PCT walks; every execution validated by TLC against PoolObs.tla")
-    ctx.assumptions += ["an explicit integer work_queue_maxsize is not smaller than the number of workers (see KNOWN_FINDINGS / DESIGN 5)"]
+    ctx.assumptions += ["known finding (open): explicit integer work_queue_maxsize smaller than the number of workers with retiring workers"]
     # design level: exhaustive TLC runs of FunctorPool.tla and conformance of the real code with it
     hconf = poolsim.Harness()
     crnd = random.Random(ctx.seed * 7919 + 55)
